@@ -227,3 +227,10 @@ fn generate_completion(completions: &mut String, cmd: &Command, is_subcommand: b
 fn single_line_styled_str(text: &StyledStr) -> String {
     text.to_string().replace('\n', " ")
 }
+
+/// Verification hook (only with `--cfg clap_verif`)
+#[cfg(clap_verif)]
+#[doc(hidden)]
+pub fn __verif_single_line(s: &str) -> String {
+    single_line_styled_str(&StyledStr::from(s.to_owned()))
+}
